@@ -269,6 +269,9 @@ class ProcTable:
             n = p.overrides[rel]
             return n() if callable(n) else n
         gone = self._gone(p)
+        if getattr(p, "half_gone", False):
+            # non-atomic teardown window (upstream issue #2418): /proc/<pid> still resolves, nothing inside does
+            return D([]) if not rest else None
         if not rest:
             return D(["stat", "status", "cmdline", "environ", "statm", "io", "smaps", "smaps_rollup",
                       "exe", "cwd", "fd", "fdinfo", "task", "limits"])
@@ -367,7 +370,7 @@ class ProcTable:
             vk.events.append(("kill", pid, int(sig), None))
             return None
         p, tid = self.owner_of(pid)
-        if p is None:
+        if p is None or getattr(p, "half_gone", False):
             raise ProcessLookupError(errno.ESRCH, os.strerror(errno.ESRCH))
         if pid in self.deny_kill:
             raise PermissionError(errno.EPERM, os.strerror(errno.EPERM))
@@ -406,7 +409,7 @@ class ProcTable:
         if err:
             raise oserr(err)
         p, tid = self.owner_of(pid)
-        if p is None:
+        if p is None or getattr(p, "half_gone", False):
             raise oserr(errno.ESRCH)
         return p
 
